@@ -4,7 +4,7 @@
 From Coq Require Import NArith ZArith.
 From FQE Require Import Bits GenBase Equiv_bits.
 From FQE.gen Require Import Gen_bitstring_py Gen_bitstring_h Gen_settings.
-Open Scope Z_scope.
+Local Open Scope Z_scope.
 
 Theorem C05_py_count_bits_between : forall s i j, 0 <= s < 2 ^ 64 -> 0 <= i < 64 -> 0 <= j < 64 -> i <> j ->
   py_count_bits_between s i j = Z.of_nat (cnt_between (Z.to_N s) (Z.to_nat i) (Z.to_nat j)).
